@@ -13,6 +13,9 @@
 //	run <dry|http|sched> <db> <meas|*> <ret> <buf>   create a policy and execute it
 //	                                            -> ok cutoff=<unix s> rows=<n> files=<n> meas=<a,b|-> | rejected
 //	ls                                          -> sorted list of stored files
+//	replace <relpath> <t,…>                     new content under the SAME path, by rename-over (restore / re-import) -> ok
+//	del <db> <meas> <µs>                        POST /api/v1/delete {where: epoch_us(time) >= µs} through the REAL
+//	                                            DeleteHandler (in-place rewrite by rename-over / whole-file removal) -> ok deleted=<n>
 //
 // Monitors (independent of the model) look at the files/rows before and after each run.
 package main
@@ -46,6 +49,7 @@ type env struct {
 	root  string
 	db    *database.DuckDB
 	h     *api.RetentionHandler
+	used  map[string]bool // every path ever written in this process (never re-created, see uniq)
 	app   *fiber.App
 	store map[string][]int64 // relpath -> row times (µs; nullT = NULL); the harness's own record
 	now   int64
@@ -71,7 +75,11 @@ func newEnv(c *vh.Ctx) *env {
 	must(err)
 	app := fiber.New(fiber.Config{DisableStartupMessage: true})
 	h.RegisterRoutes(app)
-	return &env{c: c, root: data, db: db, h: h, app: app, store: map[string][]int64{}}
+	// ONE long-lived RetentionHandler for the whole run (as in the server), plus the real DeleteHandler
+	// on the same DuckDB + storage for in-place rewrites between retention runs.
+	dh := api.NewDeleteHandler(db, be, &config.DeleteConfig{Enabled: true, ConfirmationThreshold: 1 << 30, MaxRowsPerDelete: 1 << 30}, nil, filepath.Join(root, "_tmp"), logger)
+	dh.RegisterRoutes(app)
+	return &env{c: c, root: data, db: db, h: h, app: app, store: map[string][]int64{}, used: map[string]bool{}}
 }
 
 func (e *env) close() {
@@ -104,32 +112,101 @@ func (e *env) opReset() {
 	e.c.Op("reset", "ok")
 }
 
+func (e *env) writeParquet(full string, ts []int64) {
+	var vals []string
+	for i, t := range ts {
+		if t == nullT {
+			vals = append(vals, fmt.Sprintf("(CAST(NULL AS TIMESTAMP), %d)", i))
+		} else {
+			vals = append(vals, fmt.Sprintf("(make_timestamp(CAST(%d AS BIGINT)), %d)", t, i))
+		}
+	}
+	limit := ""
+	if len(vals) == 0 {
+		vals = []string{"(CAST(NULL AS TIMESTAMP), 0)"}
+		limit = " LIMIT 0"
+	}
+	q := fmt.Sprintf("COPY (SELECT CAST(c0 AS TIMESTAMP) AS \"time\", CAST(c1 AS BIGINT) AS v FROM (VALUES %s) t(c0,c1)%s) TO '%s' (FORMAT PARQUET)",
+		strings.Join(vals, ", "), limit, full)
+	_, err := e.db.DB().Exec(q)
+	must(err)
+}
+
 func (e *env) opFile(rel string, ts []int64) {
+	if e.used[rel] {
+		panic("harness bug: path re-created (DuckDB parquet_metadata_cache flake): " + rel)
+	}
+	e.used[rel] = true
 	full := filepath.Join(e.root, rel)
 	must(os.MkdirAll(filepath.Dir(full), 0o755))
 	if strings.HasSuffix(strings.ToLower(rel), ".parquet") {
-		var vals []string
-		for i, t := range ts {
-			if t == nullT {
-				vals = append(vals, fmt.Sprintf("(CAST(NULL AS TIMESTAMP), %d)", i))
-			} else {
-				vals = append(vals, fmt.Sprintf("(make_timestamp(CAST(%d AS BIGINT)), %d)", t, i))
-			}
-		}
-		limit := ""
-		if len(vals) == 0 {
-			vals = []string{"(CAST(NULL AS TIMESTAMP), 0)"}
-			limit = " LIMIT 0"
-		}
-		q := fmt.Sprintf("COPY (SELECT CAST(c0 AS TIMESTAMP) AS \"time\", CAST(c1 AS BIGINT) AS v FROM (VALUES %s) t(c0,c1)%s) TO '%s' (FORMAT PARQUET)",
-			strings.Join(vals, ", "), limit, full)
-		_, err := e.db.DB().Exec(q)
-		must(err)
+		e.writeParquet(full, ts)
 	} else {
 		must(os.WriteFile(full, []byte("{}"), 0o644))
 	}
 	e.store[rel] = ts
 	e.c.Op("file "+rel+" "+encTimes(ts), "ok")
+}
+
+// opReplace puts new content under an EXISTING path the way a restore / re-import does: write a
+// sibling temp file, then rename it over the original (the same mechanism delete.go uses).
+func (e *env) opReplace(rel string, ts []int64) {
+	full := filepath.Join(e.root, rel)
+	tmpDir := filepath.Join(filepath.Dir(full), ".tmp")
+	must(os.MkdirAll(tmpDir, 0o755))
+	tmp := filepath.Join(tmpDir, fmt.Sprintf("r%d.new", u()))
+	e.writeParquet(tmp, ts)
+	must(os.Rename(tmp, full))
+	os.Remove(tmpDir)
+	e.store[rel] = ts
+	e.c.Op("replace "+rel+" "+encTimes(ts), "ok")
+}
+
+// readTimes reads a stored parquet file back (row order = v), independent of the model.
+func (e *env) readTimes(rel string) []int64 {
+	rs, err := e.db.DB().Query(fmt.Sprintf("SELECT epoch_us(\"time\") FROM read_parquet('%s') ORDER BY v", filepath.Join(e.root, rel)))
+	must(err)
+	defer rs.Close()
+	out := []int64{}
+	for rs.Next() {
+		var t *int64
+		must(rs.Scan(&t))
+		if t == nil {
+			out = append(out, nullT)
+		} else {
+			out = append(out, *t)
+		}
+	}
+	must(rs.Err())
+	return out
+}
+
+// opDel: row-level delete of every row with time >= x µs in db/meas through the real DeleteHandler.
+func (e *env) opDel(db, meas string, x int64) {
+	st, b := e.http("POST", "/api/v1/delete/", map[string]any{"database": db, "measurement": meas,
+		"where": fmt.Sprintf("epoch_us(time) >= %d", x), "confirm": true})
+	var r struct {
+		Success      bool  `json:"success"`
+		DeletedCount int64 `json:"deleted_count"`
+	}
+	json.Unmarshal(b, &r)
+	out := fmt.Sprintf("ok deleted=%d", r.DeletedCount)
+	if st != 200 || !r.Success {
+		out = fmt.Sprintf("err=%d", st)
+	}
+	e.c.Op(fmt.Sprintf("del %s %s %d", db, meas, x), out)
+	// refresh the harness's own record from what is stored now
+	for rel := range e.store {
+		if !strings.HasSuffix(strings.ToLower(rel), ".parquet") {
+			continue
+		}
+		if _, err := os.Stat(filepath.Join(e.root, rel)); err != nil {
+			delete(e.store, rel)
+			continue
+		}
+		e.store[rel] = e.readTimes(rel)
+	}
+	e.c.Tag("history:delete-api")
 }
 
 func (e *env) opRm(rel string) {
@@ -309,6 +386,19 @@ func (e *env) opRun(mode, db, meas string, ret, buf int, replay *strings.Builder
 			}
 		}
 	}
+	if res.ok && mode == "dry" {
+		var wantRows int64
+		wantFiles := 0
+		for rel, ts := range before {
+			if m, ok := maxOf(ts); ok && covered(rel, db, meas) && m*1000 < cutoff {
+				wantFiles++
+				wantRows += int64(len(ts))
+			}
+		}
+		if res.files != wantFiles || res.rows != wantRows {
+			e.c.Fail("dry-run-report-wrong:handleExecute", fmt.Sprintf("dry run reported rows=%d files=%d; the stored files of the covered measurements whose rows are all older than the cutoff hold rows=%d files=%d", res.rows, res.files, wantRows, wantFiles), replay.String())
+		}
+	}
 	if res.ok && mode != "dry" {
 		if res.rows != goneRows || res.files != goneFiles {
 			e.c.Fail("retention-count-mismatch:deleteOldFiles", fmt.Sprintf("reported rows=%d files=%d, actually removed rows=%d files=%d", res.rows, res.files, goneRows, goneFiles), replay.String())
@@ -334,25 +424,42 @@ func (e *env) opRun(mode, db, meas string, ret, buf int, replay *strings.Builder
 // ---------------------------------------------------------------- generation
 
 const day = int64(86400) * 1_000_000 // µs
+const hour = int64(3600) * 1_000_000
 
 type gen struct {
 	r *vh.Rand
 }
 
-// uniq: every parquet file of a run gets a never-reused name. Reusing a path for different content
-// within the same second makes DuckDB's parquet_metadata_cache (enabled by arc, validated by mtime)
-// serve the OLD footer/statistics — arc's writers never reuse names, so the harness must not either.
+// uniq: never re-create a path inside one process. Removing a parquet file and creating another one
+// under the same path makes DuckDB's parquet_metadata_cache (enabled by arc) intermittently serve
+// the OLD footer; arc's writers never do that. In-place changes go through rename-over (opReplace,
+// the real DeleteHandler), which was never observed stale. Uniqueness comes from per-case database
+// names, so partition directories and base names are the REAL ones and collide freely.
 var uniq int
 
 func u() int { uniq++; return uniq }
 
 // timesAround builds a file's row times relative to the cutoff (µs): kind selects the layout class.
-func (g gen) timesAround(cutUs int64, exact bool, kind int) []int64 {
+func (g gen) timesAround(cutUs int64, kind int) []int64 {
 	r := g.r
 	n := r.Range(1, 4)
 	var ts []int64
-	old := func() int64 { return cutUs - 1 - int64(r.Intn(3))*day/2 - int64(r.Intn(1000)) }
-	fresh := func() int64 { return cutUs + 1 + int64(r.Intn(3))*day/2 + int64(r.Intn(1000)) }
+	old := func() int64 {
+		switch r.Intn(4) {
+		case 0: // same hour partition as the cutoff (when the cutoff is not at its very start)
+			return cutUs - 1 - int64(r.Intn(1000))
+		case 1: // same day, earlier hour
+			return cutUs - 1 - int64(r.Intn(3))*hour - int64(r.Intn(1000))
+		default:
+			return cutUs - 1 - int64(r.Intn(3))*day/2 - int64(r.Intn(1000))
+		}
+	}
+	fresh := func() int64 {
+		if r.Chance(40) {
+			return cutUs + 1 + int64(r.Intn(1000))
+		}
+		return cutUs + 1 + int64(r.Intn(3))*day/2 + int64(r.Intn(1000))
+	}
 	switch kind {
 	case 0: // all below
 		for i := 0; i < n; i++ {
@@ -383,6 +490,10 @@ func (g gen) timesAround(cutUs int64, exact bool, kind int) []int64 {
 			ts = append(ts, vh.Pick(r, []int64{old(), nullT, fresh()}))
 		}
 	case 6: // empty file
+	case 7: // all below, newest row a few seconds before the cutoff (inside the cutoff's hour/day partition)
+		for i := 0; i < n; i++ {
+			ts = append(ts, cutUs-1_000_000*int64(1+r.Intn(5))-int64(r.Intn(1000)))
+		}
 	}
 	for i := len(ts) - 1; i > 0; i-- {
 		j := r.Intn(i + 1)
@@ -391,19 +502,32 @@ func (g gen) timesAround(cutUs int64, exact bool, kind int) []int64 {
 	return ts
 }
 
-var dbs = []string{"db", "db2", "d"}
 var measNames = []string{"m", "m2", "mm", "m_x", "cpu"}
 
-// path: base names come from a tiny pool, so equal base names (and equal partition tails) occur across
-// hour partitions, measurements and databases; the partition directory carries the never-reused
-// counter (see uniq), so a full path is never reused while base names collide all the time.
-func (g gen) path(db, m string, k int) string {
-	r := g.r
-	name := vh.Pick(r, []string{"data.parquet", "data.parquet", "f0.parquet", "DATA.PARQUET", m + "_compacted.parquet", "m_compacted.parquet"})
-	if r.Chance(20) {
-		return fmt.Sprintf("%s/%s/2024/01/%02d/d%d/%s", db, m, 1+r.Intn(3), u(), name)
+// partPath: the REAL storage layout — db/m/YYYY/MM/DD/HH/<file> for hourly files, db/m/YYYY/MM/DD/<m>_daily.parquet
+// for daily-compacted ones; the partition is the one holding the file's newest row (refUs when it has none).
+func (e *env) partPath(g gen, db, m string, ts []int64, refUs int64, daily bool) string {
+	t, ok := maxOf(ts)
+	if !ok {
+		t = refUs
 	}
-	return fmt.Sprintf("%s/%s/2024/01/%02d/%02d_%d/%s", db, m, 1+r.Intn(3), r.Intn(24), u(), name)
+	tm := time.UnixMicro(t).UTC()
+	names := []string{"data.parquet", "data.parquet", "f0.parquet", "DATA.PARQUET", m + "_compacted.parquet"}
+	dir := tm.Format("2006/01/02/15")
+	if daily {
+		dir = tm.Format("2006/01/02")
+		names = []string{m + "_daily.parquet", m + "_daily.parquet", "data_daily.parquet"}
+	}
+	for try := 0; ; try++ {
+		name := vh.Pick(g.r, names)
+		if try > 3 {
+			name = fmt.Sprintf("f%d.parquet", try)
+		}
+		p := fmt.Sprintf("%s/%s/%s/%s", db, m, dir, name)
+		if !e.used[p] {
+			return p
+		}
+	}
 }
 
 func main() {
@@ -419,9 +543,15 @@ func main() {
 			n = 1200
 		}
 	}
-	base := int64(1_750_000_000) * 1_000_000_000 // 2025-06-15
+	base := int64(1_750_000_000) * 1_000_000_000 // 2025-06-15 15:06:40 UTC: the cutoff falls INSIDE an hour and a day
 
+	caseNo := 0
+	var D, D2, D3 string // per-case database names sharing prefixes: D3 < D < D2 as strings
 	runCase := func(tag string, f func(replay *strings.Builder) bool) {
+		caseNo++
+		D3 = fmt.Sprintf("db%d", caseNo)
+		D = D3 + "x"
+		D2 = D + "2"
 		var replay strings.Builder
 		e.opReset()
 		replay.WriteString("reset\n")
@@ -446,56 +576,130 @@ func main() {
 		e.opNow(ns)
 		fmt.Fprintf(replay, "now %d\n", ns)
 	}
+	replace := func(replay *strings.Builder, rel string, ts []int64) {
+		e.opReplace(rel, ts)
+		fmt.Fprintf(replay, "replace %s %s   -- same path, new content (rename-over)\n", rel, encTimes(ts))
+		e.c.Tag("history:replace-in-place")
+	}
+	del := func(replay *strings.Builder, db, m string, x int64) {
+		e.opDel(db, m, x)
+		fmt.Fprintf(replay, "del %s %s %d   -- POST /api/v1/delete where epoch_us(time) >= %d\n", db, m, x, x)
+	}
+	ceilUs := func(ns int64) int64 { return (ns + 999) / 1000 } // smallest µs value >= the ns instant
+	tagPartition := func(rel string, ts []int64, cutNs int64) {
+		// does the file sit in the hour/day partition that CONTAINS the cutoff while all its rows are older?
+		parts := strings.Split(rel, "/")
+		m, ok := maxOf(ts)
+		if !ok || m*1000 >= cutNs || len(parts) < 6 {
+			return
+		}
+		ct := time.Unix(0, cutNs).UTC()
+		if len(parts) >= 7 && strings.Join(parts[len(parts)-5:len(parts)-1], "/") == ct.Format("2006/01/02/15") {
+			e.c.Tag("layout:all-old-file-in-cutoff-hour")
+		}
+		if strings.Join(parts[len(parts)-4:len(parts)-1], "/") == ct.Format("2006/01/02") {
+			e.c.Tag("layout:all-old-file-in-cutoff-day")
+		}
+	}
 
-	// (1) edge grid: one file per layout class × sub-µs phase of the clock × execution mode
+	// (1) edge grid: layout class × sub-µs phase of the clock × execution mode, real partition paths
 	for _, phase := range []int64{0, 1, 500, 999} {
-		for kind := 0; kind <= 6; kind++ {
+		for kind := 0; kind <= 7; kind++ {
 			for _, mode := range []string{"http", "sched"} {
 				if !c.Thorough() && (int(phase)+kind+len(mode))%2 != int(c.Seed%2) {
 					continue
 				}
 				runCase(fmt.Sprintf("edge:kind%d", kind), func(replay *strings.Builder) bool {
 					now := base + phase
-					days := 30 + 7
-					cutNs := now - int64(days)*86400*1_000_000_000
+					cutNs := now - int64(37)*86400*1_000_000_000
 					cutUs := cutNs / 1000 // floor; equals the cutoff exactly iff phase == 0
 					if kind == 3 && phase != 0 {
 						cutUs++ // smallest µs value >= cutoff
 					}
 					setNow(replay, now)
-					tail := fmt.Sprintf("2024/01/01/00_%d/data.parquet", u())
-					addFile(replay, "db/m/"+tail, g.timesAround(cutUs, phase == 0, kind))
-					addFile(replay, "db/m/"+strings.Replace(tail, "/00_", "/01_", 1), []int64{cutUs + day}) // same base name, next hour, fresh
-					addFile(replay, "db/m2/"+tail, []int64{cutUs - day})
-					addFile(replay, "db2/m/"+tail, []int64{cutUs - day})
-					addFile(replay, "db/m/2024/01/01/00/manifest.json", nil)
-					d := e.opRun("dry", "db", "m", 30, 7, replay, nil)
-					res := e.opRun(mode, "db", "m", 30, 7, replay, &d)
+					ts := g.timesAround(cutUs, kind)
+					p := e.partPath(g, D, "m", ts, cutUs, false)
+					addFile(replay, p, ts)
+					tagPartition(p, ts, cutNs)
+					fr := []int64{cutUs + hour}
+					addFile(replay, e.partPath(g, D, "m", fr, cutUs, false), fr) // next hour, fresh
+					if kind%2 == 1 {
+						dl := []int64{cutUs - 2*hour, cutUs - 3*hour - 5}
+						pd := e.partPath(g, D, "m", dl, cutUs, true) // daily-compacted file of the cutoff's day, all rows older
+						addFile(replay, pd, dl)
+						tagPartition(pd, dl, cutNs)
+					}
+					od := []int64{cutUs - day}
+					addFile(replay, e.partPath(g, D, "m2", od, cutUs, false), od)
+					addFile(replay, e.partPath(g, D2, "m", od, cutUs, false), od)
+					addFile(replay, e.partPath(g, D3, "m", od, cutUs, false), od)
+					addFile(replay, filepath.Dir(p)+"/manifest.json", nil)
+					d := e.opRun("dry", D, "m", 30, 7, replay, nil)
+					res := e.opRun(mode, D, "m", 30, 7, replay, &d)
 					return res.files > 0
 				})
 			}
 		}
 	}
+	// (1b) histories on the ONE long-lived handler with in-place content changes between runs
+	for _, mode := range []string{"http", "sched"} {
+		// a straddling file is kept; the DELETE API removes its rows >= cutoff in place; the next run must delete it
+		runCase("edge:rewrite-then-run", func(replay *strings.Builder) bool {
+			now := base + 7
+			cutNs := now - int64(37)*86400*1_000_000_000
+			cutUs := cutNs / 1000
+			setNow(replay, now)
+			ts := []int64{cutUs - 5_000_000, cutUs + 5_000_000, cutUs - 9_000_000}
+			p := e.partPath(g, D, "m", []int64{cutUs - 5_000_000}, cutUs, false)
+			addFile(replay, p, ts)
+			e.opRun("dry", D, "m", 30, 7, replay, nil)
+			e.opRun(mode, D, "m", 30, 7, replay, nil)
+			del(replay, D, "m", ceilUs(cutNs))
+			d := e.opRun("dry", D, "m", 30, 7, replay, nil)
+			res := e.opRun(mode, D, "m", 30, 7, replay, &d)
+			return res.files > 0
+		})
+		// a dry run sees an expired file; it is replaced under the same name by newer rows; the real run must keep it
+		runCase("edge:dry-replace-run", func(replay *strings.Builder) bool {
+			now := base + 7
+			cutNs := now - int64(37)*86400*1_000_000_000
+			cutUs := cutNs / 1000
+			setNow(replay, now)
+			ts := []int64{cutUs - 5_000_000, cutUs - 9_000_000}
+			p := e.partPath(g, D, "m", ts, cutUs, false)
+			addFile(replay, p, ts)
+			e.opRun("dry", D, "m", 30, 7, replay, nil)
+			replace(replay, p, []int64{cutUs - 5_000_000, cutUs + 60_000_000, cutUs + 61_000_000})
+			res := e.opRun(mode, D, "m", 30, 7, replay, nil)
+			// and back: replaced by expired rows only, the next run must delete it
+			replace(replay, p, []int64{cutUs - 5_000_000})
+			res2 := e.opRun(mode, D, "m", 30, 7, replay, nil)
+			return res.files > 0 || res2.files > 0
+		})
+	}
 	// policy validation gate
 	runCase("edge:policy-gate", func(replay *strings.Builder) bool {
 		setNow(replay, base)
-		addFile(replay, fmt.Sprintf("db/m/2024/01/01/00/a%d.parquet", u()), []int64{0})
-		e.opRun("http", "db", "m", 0, 0, replay, nil)
-		e.opRun("http", "db", "m", 5, 5, replay, nil)
-		e.opRun("http", "db", "m", 5, 7, replay, nil)
-		e.opRun("http", "db", "m", 5, 4, replay, nil)
-		e.opRun("nocf", "db", "m", 5, 4, replay, nil)
+		addFile(replay, e.partPath(g, D, "m", []int64{0}, 0, false), []int64{0})
+		e.opRun("http", D, "m", 0, 0, replay, nil)
+		e.opRun("http", D, "m", 5, 5, replay, nil)
+		e.opRun("http", D, "m", 5, 7, replay, nil)
+		e.opRun("http", D, "m", 5, 4, replay, nil)
+		e.opRun("nocf", D, "m", 5, 4, replay, nil)
 		return true
 	})
 
 	// (2) random layouts and histories
 	for k := 0; k < n; k++ {
 		runCase("random", func(replay *strings.Builder) bool {
-			now := base + int64(r.Intn(1000))*1_000_000_000 + vh.Pick(r, []int64{0, 0, 1, 999, 1000, 123456})
+			dbs := []string{D, D2, D3}
+			now := vh.Pick(r, []int64{base, base, base, base - 400*1_000_000_000 /* cutoff on an hour boundary */}) +
+				int64(r.Intn(1000))*1_000_000_000*int64(r.Intn(2)) + vh.Pick(r, []int64{0, 0, 1, 999, 1000, 123456})
 			setNow(replay, now)
 			ret := r.Range(1, 40)
 			buf := r.Intn(ret)
-			cutUs := (now - int64(ret+buf)*86400*1_000_000_000) / 1000
+			cutNs := now - int64(ret+buf)*86400*1_000_000_000
+			cutUs := cutNs / 1000
 			nm := r.Range(1, 4)
 			nf := r.Range(1, 7)
 			var files []string
@@ -505,16 +709,21 @@ func main() {
 					db = vh.Pick(r, dbs)
 				}
 				m := measNames[r.Intn(nm)]
-				p := g.path(db, m, i)
-				kind := vh.Pick(r, []int{0, 0, 1, 1, 2, 2, 3, 4, 5, 6})
-				addFile(replay, p, g.timesAround(cutUs, now%1000 == 0, kind))
+				kind := vh.Pick(r, []int{0, 0, 1, 1, 2, 2, 2, 3, 4, 5, 6, 7, 7})
+				ts := g.timesAround(cutUs, kind)
+				p := e.partPath(g, db, m, ts, cutUs, r.Chance(25))
+				addFile(replay, p, ts)
+				tagPartition(p, ts, cutNs)
 				files = append(files, p)
 				if r.Chance(10) {
-					addFile(replay, filepath.Dir(p)+"/notes.json", nil)
+					np := filepath.Dir(p) + "/notes.json"
+					if !e.used[np] {
+						addFile(replay, np, nil)
+					}
 				}
 			}
 			anyDel := false
-			steps := r.Range(1, 3)
+			steps := r.Range(1, 4)
 			for s := 0; s < steps; s++ {
 				meas := "*"
 				if r.Chance(55) {
@@ -528,12 +737,41 @@ func main() {
 				if r.Chance(60) {
 					x := e.opRun("dry", db, meas, ret, buf, replay, nil)
 					d = &x
+					// the stored data changes between the dry run and the real run: no comparison of the two reports then
+					if r.Chance(20) {
+						var live []string
+						for _, p := range files {
+							if _, ok := e.store[p]; ok {
+								live = append(live, p)
+							}
+						}
+						if len(live) > 0 {
+							replace(replay, vh.Pick(r, live), g.timesAround(cutUs, vh.Pick(r, []int{0, 1, 2, 4, 7})))
+							d = nil
+						}
+					}
 				}
 				res := e.opRun(vh.Pick(r, []string{"http", "sched"}), db, meas, ret, buf, replay, d)
 				anyDel = anyDel || res.files > 0
 				if s+1 < steps {
-					// history: compaction replaces some files by one merged file; the clock moves on
-					if r.Chance(50) && len(e.store) >= 2 {
+					// history between runs of the same handler: the DELETE API rewrites files in place, a restore
+					// replaces one, compaction merges two into a daily file; the clock moves on
+					switch r.Intn(5) {
+					case 0, 1:
+						m := measNames[r.Intn(nm)]
+						x := vh.Pick(r, []int64{ceilUs(cutNs), ceilUs(cutNs), cutUs - int64(r.Intn(3))*hour, cutUs + int64(r.Intn(2000)), cutUs + hour})
+						del(replay, dbs[0], m, x)
+					case 2:
+						var live []string
+						for _, p := range files {
+							if _, ok := e.store[p]; ok {
+								live = append(live, p)
+							}
+						}
+						if len(live) > 0 {
+							replace(replay, vh.Pick(r, live), g.timesAround(cutUs, vh.Pick(r, []int{0, 1, 2, 3, 4, 5, 7})))
+						}
+					case 3:
 						var live []string
 						for _, p := range files {
 							if ts, ok := e.store[p]; ok && strings.HasSuffix(strings.ToLower(p), ".parquet") && len(ts) > 0 {
@@ -545,7 +783,7 @@ func main() {
 							pa := strings.Split(a, "/")
 							if strings.HasPrefix(b, pa[0]+"/"+pa[1]+"/") {
 								merged := append(append([]int64{}, e.store[a]...), e.store[b]...)
-								mp := fmt.Sprintf("%s/%s/2024/01/01/c%d_%d/data.parquet", pa[0], pa[1], s, u())
+								mp := e.partPath(g, pa[0], pa[1], merged, cutUs, true)
 								addFile(replay, mp, merged)
 								files = append(files, mp)
 								e.opRm(a)
@@ -555,14 +793,15 @@ func main() {
 							}
 						}
 					}
-					now += vh.Pick(r, []int64{0, 1000, 86400 * 1_000_000_000, 43200 * 1_000_000_000, int64(r.Intn(3*86400)) * 1_000_000_000})
+					now += vh.Pick(r, []int64{0, 0, 1000, 86400 * 1_000_000_000, 43200 * 1_000_000_000, int64(r.Intn(3*86400)) * 1_000_000_000})
 					setNow(replay, now)
-					cutUs = (now - int64(ret+buf)*86400*1_000_000_000) / 1000
+					cutNs = now - int64(ret+buf)*86400*1_000_000_000
+					cutUs = cutNs / 1000
 				}
 			}
 			return anyDel
 		})
 	}
 	verifclock.Real()
-	c.Finish("cases = (file layout over 1–4 measurements / 1–3 databases with shared name prefixes: files below/across/above the cutoff, max exactly at / one µs around the cutoff, NULL times, empty files, compacted day files, non-parquet files; history of 1–3 retention runs (dry run + HTTP or scheduler execution, with/without measurement filter) interleaved with compaction-style file replacement and clock advances); edge grid over layout class × sub-µs clock phase × execution path, then random; non-trivial = some run deleted a file; distinct = distinct op text")
+	c.Finish("cases = (file layout in the real db/m/YYYY/MM/DD/HH/<file> and daily db/m/YYYY/MM/DD/<m>_daily.parquet partitions over 1–4 measurements / 3 databases with shared name prefixes and colliding base names: files below/across/above the cutoff incl. all-old files inside the hour/day partition that contains the cutoff, max exactly at / one µs around the cutoff, NULL times, empty files, non-parquet files; history of 1–4 retention runs on ONE long-lived handler (dry run + HTTP or scheduler execution, with/without measurement filter) interleaved with in-place rewrites by the real DELETE API, same-path replacement, compaction-style merges and clock advances); edge grid, then random; non-trivial = some run deleted a file; distinct = distinct op text")
 }
